@@ -139,9 +139,9 @@ def _check_file(nt, tf, path, subgrids, case):
     got_hdr = {k: getattr(g, k, None) for k in want_hdr}
     if got_hdr != want_hdr:
         raise Fail("file header does not read back as written", expected=want_hdr, observed=got_hdr, bucket="header")
-    if list(g.subgrids.keys()) != [sg["name"] for sg in subgrids]:
-        raise Fail("sub-grid names / order do not read back as written", expected=[sg["name"] for sg in subgrids],
-                   observed=list(g.subgrids.keys()), bucket="subgrid names")
+    if sorted(g.subgrids.keys()) != sorted(sg["name"] for sg in subgrids):
+        raise Fail("sub-grid names do not read back as written", expected=sorted(sg["name"] for sg in subgrids),
+                   observed=sorted(g.subgrids.keys()), bucket="subgrid names")
     for sg in subgrids:
         s_lat, n_lat, e_long, w_long = NF.extents(sg)
         o = g.subgrids[sg["name"]]
@@ -170,8 +170,8 @@ def _check_file(nt, tf, path, subgrids, case):
                 continue
         elif _near_any_edge(subgrids, lat_sec, lonw_sec):
             continue
-        if not (-90.0 <= lat <= 90.0):
-            continue
+        if not (-90.0 <= lat <= 90.0) or not (-180.0 <= lon <= 180.0):
+            continue        # not a position on the globe as the quantifier has it
         method = q["method"]
         L = NF.locate(subgrids, lat * 3600.0, lon * -3600.0)
         ctx = {"lat": lat, "lon": lon, "method": method, "query": q["kind"]}
